@@ -280,3 +280,60 @@ class FieldAccess(object):
         for s in self.reads.get((adt, field), []):
             out.setdefault(s.fn.path, []).append(s)
         return out
+
+
+# ---------------------------------------------------------------- intraprocedural CFG rules
+
+def successors(term):
+    k = term["k"]
+    if k == "goto":
+        return [term["t"]]
+    if k == "switch":
+        return [t for (_, t) in term["arms"]] + [term["otherwise"]]
+    if k in ("call", "drop", "assert"):
+        return [term["t"]] if term.get("t") is not None else []
+    return []
+
+
+def call_targets(prog, fn, term):
+    if term["k"] != "call":
+        return []
+    return [cp for cp, _ in callees_of_term(prog, fn, term)]
+
+
+def exits_avoiding(prog, fn, body, start_block, is_sync, after_call=True):
+    """Return-blocks reachable from the successor(s) of start_block without passing a block whose call satisfies
+    is_sync(callee paths).  (must-pass-through rule: result empty == every path to an exit is paired.)"""
+    blocks = body["blocks"]
+    work = list(successors(blocks[start_block]["t"])) if after_call else [start_block]
+    seen = set()
+    out = []
+    while work:
+        b = work.pop()
+        if b in seen:
+            continue
+        seen.add(b)
+        blk = blocks[b]
+        if blk["cleanup"]:
+            continue
+        t = blk["t"]
+        if t["k"] == "call" and is_sync(call_targets(prog, fn, t)):
+            continue
+        if t["k"] == "return":
+            out.append(b)
+            continue
+        work.extend(successors(t))
+    return out
+
+
+def call_sites(prog, fn, pred):
+    """[(body, block index, term)] of calls in fn whose callee paths satisfy pred"""
+    out = []
+    for body in iter_bodies(fn):
+        for i, b in enumerate(body["blocks"]):
+            if b["cleanup"]:
+                continue
+            t = b["t"]
+            if t["k"] == "call" and pred(call_targets(prog, fn, t)):
+                out.append((body, i, t))
+    return out
